@@ -195,5 +195,7 @@ type Step struct {
 	ParamFmt string // none | text | binary | mixed
 	ResFmt   string // text | binary | mixed
 	Detail   string // names, format codes
+	Tag      string // generator-side classification of what is special about the statement (goes into violation signatures)
+	ParamDesc []string // bound values written out (for replay files)
 	ResultCols []string // table column behind each result field, in order (for replies that carry no RowDescription)
 }
